@@ -304,6 +304,8 @@ class Engine:
         self.samples = []
         self.nondet = False
         self.decided = {}
+        self.last_cex = None
+        self.known_reps = {}
 
     # -- solver access
     def _check(self):
@@ -425,12 +427,10 @@ class Engine:
         try:
             bad = self._check()
             if bad:
-                self._model = self.solver.model()
+                self.last_cex = self._values_of(self.solver.model())
         finally:
             self.solver.pop()
         if bad:
-            # commit to the violating sub-region so that model() below agrees
-            self.solver.add(z3.Not(e))
             raise Violation(what, detail)
 
     def possible(self, cond):
@@ -454,11 +454,7 @@ class Engine:
         if len(self.samples) < 2:
             self.samples.append(obj)
 
-    def model_values(self):
-        """a concrete assignment for every declared symbol, inside the current region"""
-        if not self._check():
-            raise PathAbort("infeasible", "no model for the current path")
-        m = self.solver.model()
+    def _values_of(self, m):
         out = {}
         for name, v in self.decls.items():
             val = m.eval(v, model_completion=True)
@@ -467,6 +463,25 @@ class Engine:
             else:
                 out[name] = val.as_long()
         return out
+
+    def model_values(self):
+        """a concrete assignment for every declared symbol, inside the current region"""
+        if not self._check():
+            raise PathAbort("infeasible", "no model for the current path")
+        return self._values_of(self.solver.model())
+
+    def take_cex(self):
+        """values of the last failed prove (inside its violating sub-region), else any model of the path"""
+        v = self.last_cex
+        self.last_cex = None
+        return v if v is not None else self.model_values()
+
+    def known(self, kid):
+        """a violation attributed to a recorded known finding: counted, one representative kept"""
+        self.note("known:" + kid)
+        if kid not in self.known_reps:
+            self.known_reps[kid] = self.take_cex()
+        self.last_cex = None
 
     def path_condition(self, limit=40):
         return [str(a) for a in self.solver.assertions()[:limit]]
@@ -528,6 +543,9 @@ class ConcreteAPI:
         if len(self.samples) < 2:
             self.samples.append(obj)
 
+    def known(self, kid):
+        self.note("known:" + kid)
+
 
 # --------------------------------------------------------------------------- path / explorer
 _cleanups = []          # callables run (in dead mode) after every path
@@ -577,7 +595,7 @@ def run_path(harness, eng, allowed=()):
             res.outcome = "violation"
             res.what, res.detail = v.what, v.detail
             try:
-                res.values = eng.model_values()
+                res.values = eng.take_cex()
             except BaseException as e:     # noqa
                 res.outcome, res.kind, res.msg = "abort", "unknown", "no model: %r" % (e,)
         except PathAbort as a:
@@ -625,6 +643,7 @@ class ExploreStats:
         self.max_depth = 0
         self.wall_s = 0.0
         self.handed_back = 0
+        self.known = {}             # finding id -> representative values
 
     def as_dict(self):
         return dict(self.__dict__)
@@ -655,12 +674,27 @@ def explore(harness, fixed_prefix=(), cut_depth=None, budget_s=None, seed=0,
         st.solver_s += eng.solver_s
         st.proved += eng.proved
         st.max_depth = max(st.max_depth, len(res.trail))
+        for kid, vals in eng.known_reps.items():
+            st.known.setdefault(kid, vals)
+        if res.outcome == "abort" and str(res.kind).startswith("known:"):
+            res.outcome = "ok"
         if res.outcome == "ok":
             st.ok += 1
             for k, v in eng.notes.items():
-                st.notes[k] = st.notes.get(k, 0) + v
-            if eng.samples and len(st.samples) < 3:
-                st.samples.extend(eng.samples[:1])
+                st.notes[k] = st.notes.get(k, 0) + (min(v, 1) if k == "nt" else v)
+            if eng.samples and len(st.samples) < 2:
+                smp = eng.samples[0]
+                if isinstance(smp, dict):
+                    try:
+                        STATE.eng = eng
+                        smp = dict(smp, path_condition=eng.path_condition(14),
+                                   one_model_of_the_region={k: v for k, v in eng.model_values().items()
+                                                            if v not in (0, False)})
+                    except BaseException:   # noqa
+                        pass
+                    finally:
+                        STATE.eng = None
+                st.samples.append(smp)
         elif res.outcome == "violation":
             st.violations.append({"what": res.what, "detail": res.detail, "values": res.values,
                                   "decisions": [t[0] for t in res.trail]})
